@@ -172,6 +172,57 @@ def ecall_string():
     run_and_compare(st, regs0, ins, pc, e)
 
 
+@unit("C01/ECALL.process_ecall/print-string/loop-in-lock-step-with-the-reference", expect_reach=("init", "more", "done", "fault"))
+def ecall_string_loop():
+    """UNBOUNDED: the loop of `case 4` (mechanically cut into the assignments before it, its test + body, and the return
+    behind it -- pyvc/slices.loop_parts, nothing dropped) against the reference loop of spec/rv32im.py.
+    (1) the assignments before the loop establish the reference's initial state; (2) from ANY loop state (a0, number of
+    iterations so far, text so far -- an opaque string of unknown length) one iteration of the real loop and one of the
+    reference agree on continue / stop / fault, on the next address modulo 2**32 and on the text so far, and read
+    memory only; (3) on stop the value returned is the text so far.  By induction on the iteration count the real loop
+    returns the reference string (or faults where the reference faults) for strings of every length; that it
+    terminates is not proved.  Bytes >= 128 are outside the documented (ASCII) contract, as in the bounded unit."""
+    from architecture_simulator.uarch.memory.memory import MemoryAddressError
+    M, F = "architecture_simulator.isa.riscv.rv32i_instructions", "ECALL.process_ecall"
+    st, regs0 = havoc_state()
+    a0 = sym_int("a0", 0, TOP - 1)
+    env = run_loop_part(M, F, 4, "init", {"arg": a0, "architectural_state": st})
+    ra, rp = S.print_string_init(a0)
+    reach("init")
+    check("loop_starts_at_a0", env["address"] % TOP == ra % TOP)
+    check("loop_starts_with_nothing_printed", env["result"] == rp)
+
+    k = sym_int("iterations_so_far", 0)
+    printed = sym_str("printed_so_far")
+    address = a0 + k
+    before = snapshot(st)
+    kind, addr2, printed2 = S.print_string_step(address, printed, lambda a: byte_at(st.memory, a), LO)
+    if kind == "more":
+        assume(byte_at(st.memory, address % TOP) < 128)
+    faulted = False
+    try:
+        env = run_loop_part(M, F, 4, "step", {"address": address, "result": printed, "architectural_state": st})
+    except MemoryAddressError:
+        faulted = True
+    check_same("an_iteration_only_reads", before, snapshot(st))
+    if faulted:
+        reach("fault")
+        check("faults_only_where_the_reference_faults", kind == "fault")
+        return
+    check("reference_fault_is_a_fault", kind != "fault")
+    if env["__continue__"]:
+        reach("more")
+        check("continues_only_if_the_reference_continues", kind == "more")
+        check("next_address", env["address"] % TOP == addr2 % TOP)
+        check("text_so_far", env["result"] == printed2)
+    else:
+        reach("done")
+        check("stops_only_if_the_reference_stops", kind == "done")
+        check("text_unchanged_on_stop", env["result"] == printed2)
+        out = run_loop_part(M, F, 4, "exit", {"address": env["address"], "result": env["result"], "architectural_state": st})
+        check("returns_the_text_so_far", out["__return__"] == printed2)
+
+
 # ------------------------------------------------------------------------------------ termination condition
 @unit("C01/Pipeline.is_done/single-stage")
 def is_done_contract():
